@@ -33,7 +33,15 @@ const (
 	AltDemote
 	// AltEnv is an answer to an environment question (vrt.Choose).
 	AltEnv
+	// AltDemoteLong is AltDemote, but the goroutine also stays unscheduled while
+	// virtual time advances by up to LongDemotion (it models a goroutine that is
+	// delayed for a short real-time span, e.g. by CPU starvation, while short
+	// timers of other goroutines fire).
+	AltDemoteLong
 )
+
+// LongDemotion is the real-time span a long demotion may last.
+const LongDemotion = 150 * time.Millisecond
 
 // Alt is one alternative at a choice point.
 type Alt struct {
@@ -104,6 +112,8 @@ type G struct {
 	wake    chan struct{}
 	op      op
 	demoted bool
+	// demotedUntil: a long demotion lasts while the clock is before this instant
+	demotedUntil time.Time
 	// panicVal, when set, is raised in the goroutine when it resumes.
 	panicVal interface{}
 	// Hist is the happens-before history hash of this goroutine.
@@ -168,6 +178,8 @@ type Config struct {
 	Invariant func() string
 	// OfferDemotion adds demotion alternatives to scheduling points.
 	OfferDemotion bool
+	// OfferLongDemotion adds long-demotion alternatives (see AltDemoteLong).
+	OfferLongDemotion bool
 	// VisibleFS makes vos file operations scheduling points.
 	VisibleFS bool
 }
@@ -493,8 +505,32 @@ func (w *World) loop() {
 			}
 		}
 		if len(run) == 0 && anyDemoted {
+			// short demotions end now; long ones last while timers within their span remain
+			released := false
+			var horizon time.Time
+			for _, g := range w.live {
+				if !g.demoted {
+					continue
+				}
+				if g.demotedUntil.IsZero() || !g.demotedUntil.After(w.now) {
+					g.demoted = false
+					g.demotedUntil = time.Time{}
+					released = true
+				} else if g.demotedUntil.After(horizon) {
+					horizon = g.demotedUntil
+				}
+			}
+			if released {
+				continue
+			}
+			// only long-demoted goroutines are runnable: let a timer due within their span fire
+			if t := w.earliestTimer(); t != nil && !t.when.After(horizon) {
+				w.fireNextTimer()
+				continue
+			}
 			for _, g := range w.live {
 				g.demoted = false
+				g.demotedUntil = time.Time{}
 			}
 			continue
 		}
@@ -565,6 +601,10 @@ func (w *World) step(run []*G) {
 		p.Alts = append(p.Alts, Alt{Kind: AltDemote, G: run[0].ID, Case: -1})
 		p.Infos = append(p.Infos, run[0].op.info())
 	}
+	if w.cfg.OfferLongDemotion {
+		p.Alts = append(p.Alts, Alt{Kind: AltDemoteLong, G: run[0].ID, Case: -1})
+		p.Infos = append(p.Infos, run[0].op.info())
+	}
 	idx := 0
 	if len(p.Alts) > 1 {
 		w.Points++
@@ -579,8 +619,11 @@ func (w *World) step(run []*G) {
 	}
 	a := p.Alts[idx]
 	g := w.gs[a.G]
-	if a.Kind == AltDemote {
+	if a.Kind == AltDemote || a.Kind == AltDemoteLong {
 		g.demoted = true
+		if a.Kind == AltDemoteLong {
+			g.demotedUntil = w.now.Add(LongDemotion)
+		}
 		if w.cfg.Trace {
 			w.Trace = append(w.Trace, TraceEvent{Step: w.Steps, G: g.ID, Name: g.Name, Op: "demote"})
 		}
@@ -622,17 +665,27 @@ func (w *World) fireNextTimer() bool {
 			best = t
 		}
 	}
-	// compact
+	if best == nil {
+		w.timers = w.timers[:0]
+		return false
+	}
+	// every timer due at that instant fires before any goroutine runs again:
+	// events of one instant are concurrent, their consequences interleave under
+	// the explorer's control
+	var due []*timer
 	live := w.timers[:0]
 	for _, t := range w.timers {
-		if !t.dead && t != best {
+		if t.dead {
+			continue
+		}
+		if t.when.Equal(best.when) {
+			due = append(due, t)
+		} else {
 			live = append(live, t)
 		}
 	}
 	w.timers = live
-	if best == nil {
-		return false
-	}
+	sort.Slice(due, func(i, j int) bool { return due[i].seq < due[j].seq })
 	if best.when.After(w.now) {
 		w.now = best.when
 	}
@@ -642,12 +695,27 @@ func (w *World) fireNextTimer() bool {
 		w.fail("horizon", fmt.Sprintf("virtual time horizon %v reached with main not finished; %s", w.cfg.Horizon, w.describeBlocked()))
 		return true
 	}
-	best.dead = true
 	if w.cfg.Trace {
-		w.Trace = append(w.Trace, TraceEvent{Step: w.Steps, G: -1, Name: "clock", Op: "timer", Res: w.now.Sub(startTime).String()})
+		w.Trace = append(w.Trace, TraceEvent{Step: w.Steps, G: -1, Name: "clock", Op: "timer", Res: fmt.Sprintf("%v (%d due)", w.now.Sub(startTime), len(due))})
 	}
-	best.fire(w)
+	for _, t := range due {
+		t.dead = true
+		t.fire(w)
+	}
 	return true
+}
+
+func (w *World) earliestTimer() *timer {
+	var best *timer
+	for _, t := range w.timers {
+		if t.dead {
+			continue
+		}
+		if best == nil || t.when.Before(best.when) {
+			best = t
+		}
+	}
+	return best
 }
 
 func (w *World) addTimer(d time.Duration, fire func(w *World)) *timer {
